@@ -109,9 +109,13 @@ def parse_spec(path):
     def expand(pth, depth=0):
         out = []
         for ln in open(pth).read().split("\n"):
-            m = re.match(r"\s*@include\s+(\S+)", ln)
+            m = re.match(r"\s*@include\s+(\S+)(\s+silent)?", ln)
             if m and depth < 4:
-                out.extend(expand(os.path.join(os.path.dirname(pth), m.group(1)), depth + 1))
+                sub = expand(os.path.join(os.path.dirname(pth), m.group(1)), depth + 1)
+                if m.group(2):
+                    # `silent`: contracts are included and re-verified, but their obligations are registered by the owning unit only
+                    sub = [x for x in sub if not x.strip().startswith("@obligation")]
+                out.extend(sub)
             else:
                 out.append(ln)
         return out
